@@ -433,6 +433,12 @@ class NM(NumericDataType):
             raise ValueError('Invalid value for a NM data')
         super(NM, self).__init__(value, 16, validation_level)
 
+    def to_er7(self, encoding_chars=None):
+        if self.value is None:
+            return ''
+        # HL7 doesn't allow the exponent notation that str(Decimal) uses for some values (e.g. 0.0000001)
+        return '{0:f}'.format(self.value)
+
 
 class SI(NumericDataType):
     """
